@@ -1,5 +1,6 @@
 import ZarrsModel.Driver.C01
 import ZarrsModel.Model.FaultOps
+import ZarrsModel.Model.FaultList
 /- driver handler for C20: the wrapped operation is advanced on the model; the fault tallies must all be zero, and the
 store operations of the fault-free run — their NUMBER (`n=`) and their kinds and keys in ORDER (`t=`, recorded by the
 harness wrapper `FaultStore`) — are predicted from the operation-level model (`Model/FaultOps.lean`, `Prog.trace`): a
@@ -67,14 +68,43 @@ def predictOps (st : DriverC01.St) (cfg : ArrCfg DriverC01.Elem) (verb : String)
       else if (p.pure st.st).isNone && n ≥ 2 then none
       else some (p.trace st.st)
 
-/-- the store of the `fault_meta` entries: the array's own `zarr.json` and the Zarr V2 nodes the harness adds -/
+/-- the small hierarchy of the listing entries (harness/src/c20.rs `hier`): a `zarr.json` holding `[9]` is a group
+document, `[1]` an array document (see `metaReader`) -/
+def hierKeys : List (String × Bytes) :=
+  [("hg_c20/zarr.json", [9]), ("hg_c20/a/zarr.json", [1]), ("hg_c20/b/zarr.json", [1]), ("hg_c20/g/zarr.json", [9]),
+   ("hg_c20/g/c/zarr.json", [1]), ("hg_c20/v2/.zgroup", [2])]
+
+/-- the store of the `fault_meta` entries: the array's own `zarr.json`, the Zarr V2 nodes and the hierarchy `hg_c20`
+the harness adds -/
 def metaStore (st : DriverC01.St) (pre : Key) : KV :=
-  ((((st.st.put (pre ++ kZarrJson) [1]).put "grp2_c20/.zgroup".toList [2]).put "grp2_c20/.zattrs".toList [3]).put
-    "arr2_c20/.zarray".toList [4]).put "arr2_c20/.zattrs".toList [5]
+  hierKeys.foldl (fun m kv => m.put kv.1.toList kv.2)
+    (((((st.st.put (pre ++ kZarrJson) [1]).put "grp2_c20/.zgroup".toList [2]).put "grp2_c20/.zattrs".toList [3]).put
+      "arr2_c20/.zarray".toList [4]).put "arr2_c20/.zattrs".toList [5])
 
 def yes : Bytes → Bool := fun _ => true
 /-- every stored document of these cases parses; a `zarr.json` is a group exactly when it is the one `group` wrote -/
 def metaReader : Reader := ⟨fun b => some (b == [9]), yes, yes, yes⟩
+
+/-- two listing calls of one harness closure, both made, both must be complete -/
+def andThen (a b : Prog Bool) : Prog Bool := a.bind (fun x => b.bind (fun y => .ret (x && y)))
+
+/-- the LISTING entries of `fault_meta` (harness/src/c20.rs `run`) as ONE program of `Model/FaultList.lean` each, over the
+hierarchy `hg_c20`; the value is the completeness test the harness applies to a successful listing (4 children; 2 groups,
+2 arrays).  `Group::open` of the V3 group is one read (`openMetaP`) -/
+def listingProg (m : KV) (which : String) : Option (Prog Bool) :=
+  let hg : Key := "hg_c20/".toList
+  let fuel := depthBound m
+  let r := metaReader
+  let opened (p : Prog Bool) : Prog Bool := (openMetaP hg kZgroup yes yes yes).bind (fun _ => p)
+  let len {β : Type} (p : Prog (List β)) (k : Nat) : Prog Bool := p.bind (fun v => .ret (v.length == k))
+  match which with
+  | "children" => some (opened (len (FaultList.childrenP r true fuel hg) 4))
+  | "child_paths" =>
+    some (opened (andThen (len (FaultList.childPathsP r false fuel hg) 4) (andThen (len (FaultList.childGroupPathsP r false fuel hg) 2)
+      (andThen (len (FaultList.childArrayPathsP r false fuel hg) 2) (andThen (len (FaultList.childGroupsP r false fuel hg) 2)
+        (len (FaultList.childArraysP r (fun _ => true) false fuel hg) 2))))))
+  | "node_tree" => some ((FaultList.openNodeTreeP r fuel hg).bind (fun t => .ret (t.children.length == 4)))
+  | _ => none
 
 /-- predicted operations of the `fault_meta` entries (V3 array handle; the V2 nodes `grp2_c20`, `arr2_c20`), in order -/
 def predictMeta (st : DriverC01.St) (pre : Key) (which : String) : Option (List (Char × Key)) :=
@@ -93,7 +123,7 @@ def predictMeta (st : DriverC01.St) (pre : Key) (which : String) : Option (List 
     let p : Prog Unit := (storeMetadataP g kZgroup (.v3 [9])).bind (fun _ =>
       (openMetaP g kZgroup yes yes yes).bind (fun _ => eraseMetadataP g kZgroup .v3))
     some (p.trace m)
-  | _ => none
+  | w => (listingProg m w).map (fun p => p.trace m)
 
 def handle (st : DriverC01.St) (l : Line) : Option (DriverC01.St × List String × Option String) := do
   let v1 ← l.verbs[1]?
@@ -109,14 +139,19 @@ def handle (st : DriverC01.St) (l : Line) : Option (DriverC01.St × List String 
     -- Binding: the EFFECT-bearing operations (set / erase with their keys, in order per key) are those the model issues.
     -- Informational: the number and batching of READS (a refactoring may coalesce or split requests without touching any
     -- property; `n=` only has to be the number of operations the sweep covered).
-    let (n, t) := match st.cfg, inner.verbs[2]? with
+    -- (Since the second false-alarm test the WRITE operations are informational too: a rewrite that skips the erase of an
+    -- absent key, or writes two keys in another order, changes no observable of the property - the per-key states after
+    -- every fault, which `torn` / `retry_diff` judge, are what binds. A different write trace is reported as a NOTE.)
+    let (n, t) := (getField toks "n", getField toks "t")
+    let traceNote : Option String := match st.cfg, inner.verbs[2]? with
       | some cfg, some iv => match predictOps st cfg iv inner with
-        | some t =>
-          let pred := showTrace (byKey t)
-          let obs := getField toks "t"
-          if writesOf obs == writesOf pred then (getField toks "n", obs) else (toString t.length, pred)
-        | none => (getField toks "n", getField toks "t")
-      | _, _ => (getField toks "n", getField toks "t")
+        | some tr =>
+          let pred := showTrace (byKey tr)
+          if writesOf t == writesOf pred then none else some ("write operations differ from the model's program: model " ++ pred ++ " observed " ++ t)
+        | none => none
+      | _, _ => none
+    let note := match note, traceNote with
+      | some a, some b => some (a ++ " | " ++ b) | some a, none => some a | none, b => b
     let tail := if verb == "fault_sweep"
       then " faults n=" ++ n ++ " ok_with_fault=0 panics=0 torn=0 retry_diff=0 t=" ++ t
       else " faults n=" ++ n ++ " ok_with_fault=0 panics=0 cached_wrong=0 t=" ++ t
@@ -129,14 +164,36 @@ def handle (st : DriverC01.St) (l : Line) : Option (DriverC01.St × List String 
     let fixed := entries.map (fun e =>
       match e.splitOn ":" with
       | [w, ok0, n, _, _, t] =>
-        let (n', t') := match st.cfg, predictMeta st pre w with
-          | some _, some tr =>
-            let pred := "t=" ++ showTrace tr
-            if writesOf (t.drop 2).toString == writesOf (showTrace tr) then (n, t) else ("n=" ++ toString tr.length, pred)
-          | _, _ => (n, t)
-        ":".intercalate [w, ok0, n', "ok_with_fault=0", "panics=0", t']
+        let (n', t') := (n, t)
+        -- Binding for a LISTING entry: the fault-free outcome is the model's (the listing is complete: `true`)
+        let ok0' := match st.cfg, listingProg (metaStore st pre) w with
+          | some _, some p => showBool (((p.pure (metaStore st pre)).map (·.1)) == some true)
+          | _, _ => ok0
+        ":".intercalate [w, ok0', n', "ok_with_fault=0", "panics=0", t']
       | _ => e)
-    pure (st, ["meta " ++ " ".intercalate fixed], none)
+    -- Informational (a NOTE, not a disagreement): the READ trace of a listing entry differs from the model's program
+    let notes := entries.filterMap (fun e =>
+      match e.splitOn ":" with
+      | [w, _, n, _, _, t] =>
+        match st.cfg, listingProg (metaStore st pre) w with
+        | some _, some p =>
+          let tr := p.trace (metaStore st pre)
+          if (t.drop 2).toString == showTrace tr && n == "n=" ++ toString tr.length then none
+          else some ("fault_meta " ++ w ++ ": operation trace differs from the model: model n=" ++ toString tr.length ++ " t=" ++
+            showTrace tr ++ " observed " ++ n ++ " " ++ t)
+        | _, _ => none
+      | _ => none)
+    let wnotes := entries.filterMap (fun e =>
+      match e.splitOn ":" with
+      | [w, _, _, _, _, t] =>
+        match st.cfg, predictMeta st pre w with
+        | some _, some tr =>
+          if writesOf (t.drop 2).toString == writesOf (showTrace tr) then none
+          else some ("fault_meta " ++ w ++ ": write operations differ from the model's program: model " ++ showTrace tr ++ " observed " ++ t)
+        | _, _ => none
+      | _ => none)
+    let notes := notes ++ wnotes
+    pure (st, ["meta " ++ " ".intercalate fixed], if notes.isEmpty then none else some (" | ".intercalate notes))
   | _ => DriverC01.handle st l
 
 end Zarrs.DriverC20
